@@ -57,7 +57,11 @@ FORMULAS = {
     "t + z:A": {"z", "A"},
     "t + q": {"q"},
     "t ~ q + f": {"q", "f"},
+    # a factor whose values arrive as a plain Python LIST through the context (null_handling has its own branch for lists)
+    "t + z + L": {"z"},
+    "t ~ L + w | z": {"z", "w"},
 }
+L_VALUES = lambda n: [5.0 + 3.0 * k for k in range(n)]
 
 
 def null_rows(formula_vars: set, z_nulls, w_nulls, a_nulls) -> set:
@@ -149,6 +153,8 @@ def check_config(cfg: dict, tag, tag_eq, ctx_for=lambda tag: None):
     zs, ws, as_ = set(cfg["z_nulls"]), set(cfg["w_nulls"]), set(cfg["a_nulls"])
     ctx = ctx_for(tag)
     df = make_frame(n, zs, ws, as_, cfg["index"], tag=None if ctx is not None else tag)
+    if "L" in cfg["formula"]:
+        ctx = {**(ctx or {}), "L": L_VALUES(n)}
     caller = None if cfg["caller"] is None else set(cfg["caller"])
     caller_arg = None if caller is None else set(caller)
     nulls = null_rows(FORMULAS[cfg["formula"]], zs, ws, as_)
@@ -179,6 +185,11 @@ def check_config(cfg: dict, tag, tag_eq, ctx_for=lambda tag: None):
             if lab == "t":
                 for r, k in enumerate(kept):
                     claims.append((f"part {path} row {r} is input row {k}", tag_eq(arr[r, j], k)))
+            elif lab == "L":
+                got = [float(v) for v in arr[:, j]]
+                want = [L_VALUES(n)[k] for k in kept]
+                if not numpy.allclose(got, want):
+                    problems.append(("wrong-rows", f"{site}: part {path} column L (a Python list from the context) holds {got}, rows {kept} hold {want}"))
             elif lab in ("z", "w"):
                 want = [(10.0 + k) if lab == "z" else (20.0 + 2 * k) for k in kept]
                 got = [float(v) for v in arr[:, j]]
